@@ -31,7 +31,7 @@ CLAIMED = {
          "machine-checked proof (Coq) + exhaustive/boundary correspondence of public primitives", "4 C11"),
  "C17": ("Coq theorems c17_header_derived / c17_independent_decoder_recovers / c17_empty_rejected: the model of write_new_batch produces, for every non-empty record list, a batch whose fields at the format's byte offsets are the derived values, batch_length = len-12, CRC-32C over bytes 21..end, and an independent decoder recovers exactly the records; c17_own_reader_recovers (kio's own reader, as modelled, returns the derived batch for every well-formed new batch, with any trailing bytes); correspondence with kio.records.writers + independent Python decoder",
          "machine-checked proof (Coq) against an independent format parser + correspondence", "4 C17"),
- "C18": ("Coq theorems: c18_fields_as_encoded, c18_magic_checked, c18_crc_checked, c18_crc_single_bit (CRC-32C detects every single-bit error in messages of any length, by GF(2)-linearity), c18_bit_flip_rejected, c18_truncation_rejected, c18_reader_inverts_writer (for every well-formed prepared batch and any trailing bytes the reader returns the batch, record timestamps floored to seconds), c18_rewrite_reproduces_partial / c18_rewrite_reproduces_iff / c18_rewrite_reproduces_refuted (re-writing reproduces the bytes exactly when no record has a sub-second millisecond part: the known finding as a theorem); correspondence on reference-encoded batches and the broker fixtures under identity/bit flips/truncation/CRC-forced truncation; one recorded known finding (whole-second record timestamps)",
+ "C18": ("Coq theorems: c18_fields_as_encoded, c18_magic_checked, c18_crc_checked, c18_crc_single_bit (CRC-32C detects every single-bit error in messages of any length, by GF(2)-linearity), c18_bit_flip_rejected, c18_byte_change_rejected / c18_crc_field_corrupted / c18_burst_rejected (any replaced byte from the CRC field on, any other stored checksum, any change within four consecutive checksummed bytes - CRC-32C detects every burst of at most 32 bits), c18_truncation_rejected, c18_reader_inverts_writer (for every well-formed prepared batch and any trailing bytes the reader returns the batch, record timestamps floored to seconds), c18_rewrite_reproduces_partial / c18_rewrite_reproduces_iff / c18_rewrite_reproduces_refuted (re-writing reproduces the bytes exactly when no record has a sub-second millisecond part: the known finding as a theorem); correspondence on reference-encoded batches and the broker fixtures under identity/bit flips/replaced checksums/replaced bytes/4-byte bursts/truncation/compound damage/CRC-forced truncation; one recorded known finding (whole-second record timestamps)",
          "machine-checked proof (Coq) incl. CRC linearity + fault-enumeration correspondence", "4 C18"),
 
  "C01": ("Coq theorem c01_roundtrip (Props/C01.v): for EVERY well-formed plan environment, class, typed canonical value and trailing bytes, decode(encode v ++ tl) = (v, tl); instance wf_env(shipped plans)=true by vm_compute; model tied to kio by a per-run correspondence on generated instances of all 1629 classes",
